@@ -174,8 +174,19 @@ def parse_data_types_and_routes_from_doc_ref(
             supplied_namespace = api.namespaces[namespace_context]
             if tag == 'field':
                 if '.' in val:
-                    type_name, __ = val.split('.', 1)
-                    doc_type = supplied_namespace.data_type_by_name[type_name]
+                    type_name, rest = val.split('.', 1)
+                    field_namespace = supplied_namespace
+                    if ('.' in rest and type_name in api.namespaces and
+                            type_name not in
+                            supplied_namespace.data_type_by_name and
+                            type_name not in supplied_namespace.alias_by_name):
+                        # Reference to a field in an imported namespace.
+                        field_namespace = api.namespaces[type_name]
+                        type_name, __ = rest.split('.', 1)
+                    if type_name in field_namespace.alias_by_name:
+                        doc_type = field_namespace.alias_by_name[type_name]
+                    else:
+                        doc_type = field_namespace.data_type_by_name[type_name]
                     data_types.add(doc_type)
                 else:
                     pass  # no action required, because we must be referencing the same object
